@@ -497,6 +497,18 @@ def report():
             tot[k] = tot.get(k, 0) + v
         print(pid, json.dumps(row, sort_keys=True))
     print("total", json.dumps(tot, sort_keys=True))
+    if "--md" in sys.argv:
+        cols = ["caught", "killed-by-tests", "survivor:hole-fixed", "survivor:equivalent", "survivor:irrelevant", "SURVIVOR", "silent", "does-not-compile"]
+        with open(os.path.join(SW, "SUMMARY.md"), "w") as fh:
+            fh.write("# Sweep summary (generated by `tools/sweep.py report --md`)\n\n")
+            fh.write("Status of every machine-generated edit (see tools/sweep.py for the operators). `caught` = a check reported it when it was first run; "
+                     "`killed-by-tests` = silent but rejected by the pinned suite; `survivor:*` = silent and accepted by the suite, triaged in triage.json "
+                     "(`hole-fixed` = a rule was added and a mutant `sweep-*` re-creates it); `SURVIVOR` = not yet triaged; `silent` = suite verdict not yet computed.\n\n")
+            fh.write("| property | " + " | ".join(cols) + " |\n|---|" + "---|" * len(cols) + "\n")
+            for pid in sorted(by):
+                row = {k: len(v) for k, v in by[pid].items()}
+                fh.write("| %s | " % pid + " | ".join(str(row.get(c, 0)) for c in cols) + " |\n")
+            fh.write("| total | " + " | ".join(str(tot.get(c, 0)) for c in cols) + " |\n")
     print()
     for pid in sorted(by):
         for c, r in by[pid].get("SURVIVOR", []):
